@@ -282,7 +282,7 @@ def run(db, chk) -> None:
         reason = FROZEN.get((w, hit))
         decoded = False
         if reason:
-            body = ast.unparse(fn)
+            body = "\n".join(ast.unparse(g) for g in H.with_private_callees(mod, fn))          # the decoding may sit in a private helper of the function
             decoded = ("sym_table[x]" in body and "['name'] =" in body) or "add_symbols_to_trace_df" in body
         chk.ob("C11.R4-id-opacity", f"{w}: {hit} over a name/cat column", bool(reason) and decoded, loc, found=src, accepted="only in the frozen table, and only while the column is still decoded there: " + (reason or "-"),
                why="ordering or arithmetic on encoded ids makes the result depend on the arbitrary id numbering (hash seed, parse order)")
